@@ -1,6 +1,7 @@
 package sim
 
 import (
+	"archive/tar"
 	"bytes"
 	"context"
 	"crypto/ecdsa"
@@ -1322,4 +1323,115 @@ func FamilyMore(r *Runner) {
 			return nil
 		})
 	}
+}
+
+// repackBundle rewrites a staging bundle (gzip'd tar with SUNLIGHT.opts PAX
+// records) after letting f edit its members.
+func repackBundle(gzdata []byte, f func([]member) []member) []byte {
+	ms := f(bundleMembers(gzdata))
+	var buf bytes.Buffer
+	tw := tar.NewWriter(&buf)
+	for _, m := range ms {
+		tw.WriteHeader(&tar.Header{Name: m.key, Size: int64(len(m.data)), PAXRecords: map[string]string{"SUNLIGHT.opts": m.opts}})
+		tw.Write(m.data)
+	}
+	tw.Close()
+	return gz(buf.Bytes())
+}
+
+// FamilyTamperBundle: the staging bundle the recovery will replay is re-packed
+// with an extra, wider right-edge tile pair (a fabricated leaf appended), with
+// an altered tile, or with a member missing.
+func FamilyTamperBundle(r *Runner) {
+	for _, base := range []int{0, 254, 255} {
+		for _, kind := range []string{"wider", "alter-hash", "alter-data", "drop-hash", "drop-data", "extra-junk"} {
+			r.Scenario(fmt.Sprintf("tamper/b%d/bundle-%s", base, kind), false, func(w *World) error {
+				a, err := Setup(w, base, 0)
+				if err != nil {
+					return err
+				}
+				w.Gate(false)
+				for _, e := range newEntries(w, "r1", 2) {
+					a.Submit(e, false)
+				}
+				w.Settle()
+				a.Round()
+				w.Settle()
+				es := newEntries(w, "r2", 2)
+				w.Gate(true)
+				submitAll(w, a, es)
+				t := w.Go("round", a.Round)
+				w.DriveUntil(t, func(p []*Op) *Op {
+					for _, o := range p {
+						if o.Kind == "Upload" && KeyClass(o.Key) == "hash" {
+							return o
+						}
+					}
+					return nil
+				})
+				w.Crash(a)
+				w.Gate(false)
+				var skey string
+				for _, k := range w.Keys() {
+					if KeyClass(k) == "staging" {
+						skey = k
+					}
+				}
+				if skey == "" {
+					return fmt.Errorf("no staging bundle")
+				}
+				old, _ := w.Object(skey)
+				nb := repackBundle(old, func(ms []member) []member {
+					var hi, di = -1, -1
+					for i, m := range ms {
+						if t, ok := ParseTilePath(m.key); ok && t.K == "hash" && t.L == 0 && (hi < 0 || t.N >= mustTile(ms[hi].key).N) {
+							hi = i
+						}
+						if t, ok := ParseTilePath(m.key); ok && t.K == "data" && (di < 0 || t.N >= mustTile(ms[di].key).N) {
+							di = i
+						}
+					}
+					if hi < 0 || di < 0 {
+						return ms
+					}
+					switch kind {
+					case "wider":
+						ht, dt := mustTile(ms[hi].key), mustTile(ms[di].key)
+						if ht.W >= TW {
+							return ms
+						}
+						fake := &Leaf{Timestamp: 1, Certificate: []byte("fabricated"), Index: ht.N*TW + int64(ht.W)}
+						lh := leafHash(fake.MerkleTreeLeaf())
+						raw, _ := gunzip(ms[di].data)
+						ht.W++
+						dt.W++
+						ms = append(ms, member{ht.Path(), append(append([]byte{}, ms[hi].data...), lh[:]...), ms[hi].opts},
+							member{dt.Path(), gz(append(raw, fake.TileLeaf()...)), ms[di].opts})
+					case "alter-hash":
+						d := append([]byte{}, ms[hi].data...)
+						d[len(d)-1] ^= 1
+						ms[hi].data = d
+					case "alter-data":
+						raw, _ := gunzip(ms[di].data)
+						raw[len(raw)/2] ^= 1
+						ms[di].data = gz(raw)
+					case "drop-hash":
+						ms = append(ms[:hi], ms[hi+1:]...)
+					case "drop-data":
+						ms = append(ms[:di], ms[di+1:]...)
+					case "extra-junk":
+						ms = append(ms, member{"tile/9/000.p/1", []byte("0123456789abcdef0123456789abcdef"), ms[hi].opts})
+					}
+					return ms
+				})
+				w.Tamper(skey, nb, "repack-"+kind)
+				return afterTamper(w, es)
+			})
+		}
+	}
+}
+
+func mustTile(key string) TileID {
+	t, _ := ParseTilePath(key)
+	return t
 }
